@@ -21,6 +21,9 @@ def directed(rng):
     for size in range(0, 13):
         for fl in (0x00, 0x40, 0x80, 0xC0, 0x01, 0x41):
             out.append(R.RxCase([("weird-header", R.weird_header(rng, size=size, flags=fl)), ("valid", v), ("valid", v2)], []))
+    for fl in (0x40, 0xC0, 0x00, 0x80, 0x01):
+        for nb in range(0, 7):
+            out.append(R.RxCase([("short-body-valid-crc", R.short_body_frame(rng, fl, nb)), ("valid", v), ("valid", v2)], []))
     # continuation fragment with a corrupted body
     frag = bytearray(build_frame_bytes(None, b"abcdefgh", 0x00))
     frag[-1] ^= 0x10
